@@ -409,6 +409,8 @@ def c12(tier, seed, t0):
     agg2 = R.merge(res2)
     agg = merge2(agg1, agg2)
     bounds = dict(token_level=dict(window_chars=N, alphabet="ASCII without '?' and backslash in the base window (so the base has no splice/trigraph)",
+                                   punctuator_family="windows of 4 (quick: alphabet %r; thorough: %r) and 5 (thorough, first alphabet) characters, every "
+                                                     "character symbolic over that alphabet" % (H.PUNCT_Q, H.PUNCT_T),
                                    edits=["backslash-newline at every token boundary", "??/-newline at every token boundary", "both forms in a row, in both orders",
                                           "trigraph respelling of every punctuator character { } [ ] # ^ | ~", "digraph respelling of { } [ ] #"],
                                    skipped="windows whose base lexing raises or carries a lexical diagnostic; windows containing a digraph; "
